@@ -297,6 +297,8 @@ def run_setgroups(desc, seed, res):
         req = r.getrandbits(16) if r.random() < 0.8 else r.choice([0, 0xFFFF, cur])
         pairs.append((cur, req))
     kinds = ["short", "int", "group", "broadcast", "unaddressed"]
+    LabelledGroup = type("Zone", (address.GearGroup,), {"__module__": "application"})
+    LabelledShort = type("Luminaire", (address.GearShort,), {"__module__": "application"})
     forced_group = {}
     if desc["part"] == 0:
         # every destination group 0..15, leaving and keeping that group
@@ -332,7 +334,7 @@ def run_setgroups(desc, seed, res):
         second = Gear(short=(ta + 1) % 64 if kind != "unaddressed" else None, groups=set(others_groups), name="second")
         bystander = Gear(short=(ta + 7) % 64, groups={1, 2, 14}, name="bystander")
         if kind == "short":
-            dest = address.GearShort(ta)
+            dest = address.GearShort(ta) if idx % 7 else LabelledShort(ta)
             addressed = [target]
         elif kind == "int":
             dest = ta
@@ -341,7 +343,8 @@ def run_setgroups(desc, seed, res):
             gsel = forced_group.get(idx, r.choice(sorted(curset)) if curset else None)
             if gsel is None:
                 continue
-            dest = address.GearGroup(gsel)
+            # every fourth group destination is an application's own class derived from the library's
+            dest = address.GearGroup(gsel) if idx % 4 else LabelledGroup(gsel)
             addressed = [u for u in (target, second, bystander) if gsel in u.groups]
         elif kind == "broadcast":
             dest = address.GearBroadcast()
